@@ -85,6 +85,27 @@ struct Checker
     }
 };
 
+// the payload object the builder sequence works on: a stand-alone object of the typed class, or - the idiom of the
+// repository's example and tests - the payload stored inside a Packet (where it lives as a plain Payload), edited in
+// place through static_cast<TypedPayload&>(packet.getPayload())
+template <typename P>
+struct Holder
+{
+    P own;
+    ASAM::CMP::Packet pk;
+    P* p = &own;
+    Holder(Ctx& c, bool inPacket, std::string& history)
+    {
+        if (inPacket)
+        {
+            pk.setPayload(P());
+            p = &static_cast<P&>(pk.getPayload());
+            history += "payload-stored-in-a-Packet-and-edited-through-getPayload() ";
+            c.count("sequences_on_a_payload_stored_inside_a_packet");
+        }
+    }
+};
+
 inline Bytes someData(Rng& r, size_t n)
 {
     return r.bytes(n);
@@ -120,7 +141,8 @@ template <typename P>
 void canLike(Ctx& c, Rng& r, bool fd, long forcedLen)
 {
     Checker ck{c, fd ? "CanFdPayload" : "CanPayload", ""};
-    P obj;
+    Holder<P> hold(c, forcedLen < 0 ? r.chance(1, 3) : (forcedLen % 4 == 2), ck.history);
+    P& obj = *hold.p;
     wire::Can sh;
     if (forcedLen < 0 ? r.chance(1, 3) : (forcedLen % 3 == 1))
     {
@@ -180,7 +202,8 @@ void canLike(Ctx& c, Rng& r, bool fd, long forcedLen)
 inline void lin(Ctx& c, Rng& r, long forcedLen)
 {
     Checker ck{c, "LinPayload", ""};
-    ASAM::CMP::LinPayload obj;
+    Holder<ASAM::CMP::LinPayload> hold(c, forcedLen < 0 ? r.chance(1, 3) : (forcedLen % 4 == 2), ck.history);
+    ASAM::CMP::LinPayload& obj = *hold.p;
     wire::Lin sh;
     if (forcedLen < 0 ? r.chance(1, 3) : (forcedLen % 3 == 1))
     {
@@ -228,7 +251,8 @@ inline void lin(Ctx& c, Rng& r, long forcedLen)
 inline void eth(Ctx& c, Rng& r, long forcedLen)
 {
     Checker ck{c, "EthernetPayload", ""};
-    ASAM::CMP::EthernetPayload obj;
+    Holder<ASAM::CMP::EthernetPayload> hold(c, forcedLen < 0 ? r.chance(1, 3) : (forcedLen % 4 == 2), ck.history);
+    ASAM::CMP::EthernetPayload& obj = *hold.p;
     wire::Eth sh;
     if (forcedLen < 0 ? r.chance(1, 3) : (forcedLen % 3 == 1))
     {
@@ -271,7 +295,8 @@ inline void eth(Ctx& c, Rng& r, long forcedLen)
 inline void analog(Ctx& c, Rng& r, long forcedLen)
 {
     Checker ck{c, "AnalogPayload", ""};
-    ASAM::CMP::AnalogPayload obj;
+    Holder<ASAM::CMP::AnalogPayload> hold(c, forcedLen < 0 ? r.chance(1, 3) : (forcedLen % 4 == 2), ck.history);
+    ASAM::CMP::AnalogPayload& obj = *hold.p;
     wire::Analog sh;
     if (forcedLen < 0 ? r.chance(1, 3) : (forcedLen % 3 == 1))
     {
@@ -340,7 +365,8 @@ inline std::string noNulString(Rng& r, size_t n)
 inline void cm(Ctx& c, Rng& r, long forced)
 {
     Checker ck{c, "CaptureModulePayload", ""};
-    ASAM::CMP::CaptureModulePayload obj;
+    Holder<ASAM::CMP::CaptureModulePayload> hold(c, forced < 0 ? r.chance(1, 3) : (forced % 4 == 2), ck.history);
+    ASAM::CMP::CaptureModulePayload& obj = *hold.p;
     wire::Cm sh;
     if (forced < 0 ? r.chance(1, 3) : (forced % 3 == 1))
     {
@@ -483,7 +509,8 @@ inline void cm(Ctx& c, Rng& r, long forced)
 inline void iface(Ctx& c, Rng& r, long forced)
 {
     Checker ck{c, "InterfacePayload", ""};
-    ASAM::CMP::InterfacePayload obj;
+    Holder<ASAM::CMP::InterfacePayload> hold(c, forced < 0 ? r.chance(1, 3) : (forced % 4 == 2), ck.history);
+    ASAM::CMP::InterfacePayload& obj = *hold.p;
     wire::If sh;
     if (forced < 0 ? r.chance(1, 3) : (forced % 3 == 1))
     {
